@@ -75,7 +75,7 @@ Theorem C27_orig_rng_leak_refuted :
     valid o e /\ run orig o e = Ok r /\ r_depth r <> depth0 e /\ r_state_loaded r = false.
 Proof.
   exists (mkOpts 3 (fun _ => 2) true false false false false false true true (fun _ => true) false
-                 (fun _ => false) 2 (fun _ => false) true false), e_base.
+                 (fun _ => false) 2 (fun _ => false) true false 0), e_base.
   eexists. split; [apply valid_concrete; cbn; auto|].
   split; [vm_compute; reflexivity|]. cbn. split; [discriminate|reflexivity].
 Qed.
@@ -85,7 +85,7 @@ Theorem C27_orig_rng_leak_terminate_refuted :
     valid o e /\ run orig o e = Ok r /\ r_depth r <> depth0 e /\ r_state_loaded r = false.
 Proof.
   exists (mkOpts 3 (fun _ => 2) true false false false false false true false (fun _ => true) true
-                 (fun i => i =? 1) 2 (fun _ => false) true false), e_base.
+                 (fun i => i =? 1) 2 (fun _ => false) true false 0), e_base.
   eexists. split; [apply valid_concrete; cbn; auto|].
   split; [vm_compute; reflexivity|]. cbn. split; [discriminate|reflexivity].
 Qed.
@@ -95,7 +95,7 @@ Theorem C27_orig_unbound_refuted :
   exists (o : opts) (e : env), valid o e /\ run orig o e = Err EUnbound.
 Proof.
   exists (mkOpts 2 (fun _ => 2) true true false false false false false false (fun _ => true) false
-                 (fun _ => false) 2 (fun _ => false) true false), e_base.
+                 (fun _ => false) 2 (fun _ => false) true false 0), e_base.
   split; [apply valid_concrete; cbn; auto|vm_compute; reflexivity].
 Qed.
 
@@ -105,7 +105,7 @@ Theorem C27_orig_stale_directory_refuted :
     valid o e /\ outdir o = false /\ run orig o e = Ok r /\ r_foreign r <> [].
 Proof.
   exists (mkOpts 1 (fun _ => 2) true false false false false false true false (fun _ => true) false
-                 (fun _ => false) 2 (fun _ => false) true false), (mkEnv 1 [] None 1 true false).
+                 (fun _ => false) 2 (fun _ => false) true false 0), (mkEnv 1 [] None 1 true false).
   eexists. split; [apply valid_concrete; cbn; auto|].
   split; [reflexivity|]. split; [vm_compute; reflexivity|]. cbn. discriminate.
 Qed.
@@ -128,7 +128,7 @@ Proof. exact each_fix_needed. Qed.
         iteration 0 of a two-sample run, termination by callback; the model returns, balanced ---- *)
 Example C27_valid_resume_example :
   let o := mkOpts 3 (fun _ => 2) true true false true true true true false (fun i => negb (i =? 1)) true
-                  (fun i => i =? 1) 1 (fun i => i =? 1) true true in
+                  (fun i => i =? 1) 1 (fun i => i =? 1) true true 0 in
   let e := mkEnv 2 [FRandomState; FLast; FSample Latest 0; FSample Latest 1; FSample Latest 2; FSample Latest 3;
                     FMean Latest; FEnergyHist Latest; FMinisanityHist Latest; FMinisanityTxt; FCounting]
                  (Some 0) 2 false false in
